@@ -159,12 +159,15 @@ def mutate_obs(data, kind, a, b, c, d):
         withp = [x for x in evs if len(x.payload) >= 4]
         if not withp:
             return data
-        e = withp[a % len(withp)]
+        rest = [x for x in withp if x.mcv != "OHx"]      # (every stream starts with an OHx)
+        if rest and a % 4:
+            withp = rest
+        e = withp[(a // 4) % len(withp)]
         base = e.offset + (16 if e.jumbo else 12)
         wide = (c % 2 == 1) and len(e.payload) >= 8
         w = 8 if wide else 4
         k = (b % (len(e.payload) // w)) * w
-        ext = [0, -1, -2, 1, 2 ** 31 - 1, -2 ** 31, 2 ** 31, 2 ** 32 - 1, 100, 99, -100, 2 ** 63 - 1, -2 ** 63, 2 ** 62, 65536]
+        ext = [-1, -2 ** 31, 2 ** 31 - 1, -2, 0, 100, -100000, 65536, 2 ** 63 - 1, -2 ** 63, -2 ** 31 + 1, 2 ** 30]
         v = ext[(d >> 2) % len(ext)]
         ba[base + k:base + k + w] = (v & (2 ** (8 * w) - 1)).to_bytes(w, "little")
         return bytes(ba)
